@@ -50,6 +50,10 @@ HOSTILE_INNER = [
     # statement separators that are text: inside literals and quoted names, doubled, blank between
     "select ';;', '; ;', 'a;;b', \"x;;y\", `c;;d` from t where e = ';'",
     "select ';' ; select ';;'",
+    # a literal that spans lines, glued to what follows it, then single blanks between words
+    "select 'Dear\nX'||name greeting from t",
+    "select 'a\nb'||c d, \"e\nf\"||g h, `i\nj`.k l from t where m='n\n\no' and p q",
+    "select 1 x,'two\nlines'y from t",
     "select * from t where name = ''",
     "select * from t where name = 'it''s'",
     "select '''', '''a', 'a''', 'a''''b'",
